@@ -411,6 +411,9 @@ func runAgentClose(c *vlib.Ctx) error {
 				if alltd == 0 && !s.W && s.Child == "none" && s.Recv != (td == 300) && td != 0 {
 					continue
 				}
+				if alltd == 0 && (s.Child == "own" || s.Child == "dies") && !s.Recv {
+					continue // quick: these trees only with a receiver (the pipe is what they are about)
+				}
 				if s.W && alltd == 0 && td != 300 {
 					continue
 				}
